@@ -14,7 +14,8 @@ import numpy as np
 
 from ..poly import z3mod, Poly
 from ..dromodels import CompiledDRO, dro_viol, dro_hold, dro_row_terms, piece_polys
-from ..drogen import members, kl_members, lookup, MAY_RAISE
+from ..drogen import members, kl_members, soc_members, lookup, MAY_RAISE
+from .. import dromoments as dm
 from ..smt import HarnessError, fval
 from ..harness import finding
 from ..util import quiet
@@ -44,7 +45,7 @@ META = dict(
 
 def cases(tier, seed, rnd):
     n = 12 if tier == 'quick' else 400
-    return [dict(name=n_) for n_ in members()] + [dict(name=n_) for n_ in kl_members()] + \
+    return [dict(name=n_) for n_ in members()] + [dict(name=n_) for n_ in kl_members()] + [dict(name=n_) for n_ in soc_members(tier)] + \
         [dict(name='rand%d' % rnd.randint(0, 10 ** 6)) for _ in range(n)] + \
         [dict(name='randkl%d' % rnd.randint(0, 10 ** 6)) for _ in range(6 if tier == 'quick' else 120)]
 
@@ -79,6 +80,10 @@ def run_case(case, ses):
     rows = cm.rows()
     for row in rows:
         label = '%s/%s' % (name, row['label'])
+        if row['F'] is not None and row['kind'] in ('E', 'plain') and dm.is_conic(cm, row['F']):
+            if not conic_row(ses, name, cm, blocks, row, label):
+                ok = False
+            continue
         if row['kind'] == 'E' and row['F'] is not None and cm.exp_prob(row['F']):
             if not exp_row(ses, name, cm, blocks, row, label):
                 ok = False
@@ -182,6 +187,168 @@ def exp_row(ses, name, cm, blocks, row, label):
     return ok
 
 
+def conic_row(ses, name, cm, blocks, row, label):
+    """Rows of models whose supports / expectation sets carry second-order-cone constraints (balls, ellipsoids,
+    second-moment liftings square(z) <= u): the adversary in MOMENT form (rsv.dromoments, Lemma M), coupled with the compiled
+    block by Cauchy-Schwarz pairings, decided by reformulation-linearisation (QF_LRA; only `unsat` is used).  When the
+    linearised system is satisfiable a REAL counterexample is searched (real solver points, numerically worst moments turned
+    into an explicit discrete distribution that is checked against the true set); only what replays is reported."""
+    from ..tv import rlt_block, whole
+    o = cm.o
+    F = row['F']
+    ren = {n: Poly.var('v%d' % j) for n, j in cm.iface.items()}
+    groups, sense = piece_polys(row['cons'])
+    kind = 'dro-%s-conic' % row['kind']
+    ok = True
+    tmo = 15000 if ses.tier == 'quick' else 120000
+    for gi, g in enumerate(groups):
+        systems = []
+        if row['kind'] == 'E':
+            sysm = dm.moment_system(cm, F, len(g))
+            tot = dm.bilinear_value(cm, g, sysm, len(g), ren=ren)
+            systems.append(('', sysm, [tot] if sense == 'le' else [tot, -tot]))
+        else:
+            for s in range(o.ns):
+                ss = dm.scenario_system(cm, F, s)
+                viol = []
+                for pz in g:
+                    t = dm.hom(cm.inst(pz, s).subs(ren), Poly.const(1), ss['msub'])
+                    viol += [t] if sense == 'le' else [t, -t]
+                systems.append(('.s%d' % s, ss, viol))
+        for tag, sysm, viol in systems:
+            lab = '%s.g%d%s' % (label, gi, tag)
+            done = False
+            cands = [b for b in blocks if b['cones']] + [b for b in blocks if not b['cones']]
+            if len(blocks) > 1:
+                cands.append(whole(cm.cp))
+            for blk in cands:
+                r = rlt_block(ses, cm.cp, blk, sysm['G'], sysm['H'], [], sysm['vars'], viol, lab, kind,
+                              sample=dict(model=name, row=row['label'], moment_vars=len(sysm['vars']), cones=len(sysm['Q'])),
+                              timeout_ms=tmo, Q2=sysm['Q'], full_pairing=True)
+                if r == 'unsat':
+                    done = True
+                    break
+            if done:
+                continue
+            ok = False
+            ses.stats.obligations += 1
+            ses.stats.kinds[kind] = ses.stats.kinds.get(kind, 0) + 1
+            data = numeric_conic_cex(name, cm, row)
+            if data is not None:
+                good, info = replay(data, want_info=True)
+                if good:
+                    finding(ses, 'C03:%s:%s' % (name, row['label']),
+                            'dro model %s row %s: a compiled-feasible point is unsafe: %s' % (name, row['label'], info.get('what')),
+                            data, 'rsv.props.c03:replay')
+                    return False
+            ses.stats.undecided += 1
+            ses.stats.notes.append('undecided: %s (conic support; linearised system satisfiable, no real counterexample)' % lab)
+    return ok
+
+
+def conic_worst(cm, row, assign):
+    """Numerically worst explicit distribution (E rows) or realisation (plain rows) of the TRUE conic set for the decisions
+    `assign`: (value, atoms) with atoms = [scenario, z, mass]."""
+    o = cm.o
+    F = row['F']
+    groups, sense = piece_polys(row['cons'])
+    best = None
+    for g in groups:
+        for sgn in ((1, -1) if sense == 'eq' else (1,)):
+            gg = [q * sgn for q in g]
+            if row['kind'] == 'E':
+                w = dm.worst_moments(cm, F, gg, assign, len(gg))
+                if w is None:
+                    continue
+                atoms = dm.distribution_from_moments(cm, F, w[1], len(gg))
+                cand = [atoms]
+            else:
+                cand = []
+                for s in range(o.ns):
+                    for pz in gg:
+                        z = worst_realisation(cm, F, s, cm.inst(pz, s).subs(assign))
+                        if z is not None:
+                            cand.append([[s, z, 1.0]])
+            for atoms in cand:
+                # pull the atoms slightly towards a point well inside, until the distribution is in the true set
+                for shrink in (0.0, 1e-7, 1e-5, 1e-3):
+                    at = [[s, {k: v * (1 - shrink) + shrink * centre(cm, F, s)[k] for k, v in z.items()}, w_] for s, z, w_ in atoms]
+                    if row['kind'] == 'plain':
+                        from ..oracle import cons_eval
+                        inside = all(cons_eval(c, at[0][1]) <= 1e-9 for c in o.amb[F]['supp'][at[0][0]])
+                    else:
+                        inside = dm.in_true_set(cm, F, at, 1e-9)[0]
+                    if inside:
+                        val = dm.expectation_under(cm, gg, at, assign)
+                        if best is None or val > best[0]:
+                            best = (val, at)
+                        break
+    return best
+
+
+_centres = {}
+
+
+def centre(cm, F, s):
+    """A point of the support of scenario s (numeric, Chebyshev-like: minimise the largest constraint value)."""
+    key = (id(cm), F, s)
+    if key not in _centres:
+        from scipy.optimize import minimize
+        from ..oracle import cons_eval
+        zn = list(cm.o.znames)
+        cons = cm.o.amb[F]['supp'][s]
+        r = minimize(lambda x: max([cons_eval(c, dict(zip(zn, x))) for c in cons] + [-1e3]), np.zeros(len(zn)), method='Nelder-Mead',
+                     options=dict(maxiter=2000, xatol=1e-9, fatol=1e-9))
+        _centres[key] = dict(zip(zn, [float(t) for t in r.x]))
+    return _centres[key]
+
+
+def worst_realisation(cm, F, s, poly):
+    from scipy.optimize import minimize
+    from ..oracle import cons_eval
+    zn = list(cm.o.znames)
+    cons = [dict(type='ineq', fun=(lambda x, c=c: -cons_eval(c, dict(zip(zn, x))))) for c in cm.o.amb[F]['supp'][s]]
+    c0 = centre(cm, F, s)
+    x0 = np.array([c0[n] for n in zn])
+    try:
+        r = minimize(lambda x: -float(poly.evalf(dict(zip(zn, x)))), x0, constraints=cons, method='SLSQP', options=dict(maxiter=300))
+    except Exception:  # noqa
+        return None
+    return dict(zip(zn, [float(t) for t in r.x]))
+
+
+def solver_points(cm, tries=8, seed=5):
+    """Real solutions of the real compiled program for several linear objectives over the interface columns."""
+    import random
+    from rsome.gcp import GCProg
+    from rsome import eco_solver
+    f = cm.formula
+    rnd = random.Random(seed)
+    cols = sorted(set(cm.iface.values()))
+    for k in range(tries):
+        obj = np.array(f.obj, dtype=float).reshape(-1).copy()
+        if k:
+            for c in cols:
+                obj[c] = rnd.choice([-1, 1, 0.5, -0.5, 0, 2, -2])
+        g = GCProg(f.linear, f.const, f.sense, f.vtype, f.ub, f.lb, f.qmat, f.xmat, [], obj)
+        with quiet():
+            try:
+                sol = eco_solver.solve(g, display=False)
+            except Exception:  # noqa
+                continue
+        if sol is None or sol.x is None:
+            continue
+        yield [float(t) for t in sol.x]
+
+
+def numeric_conic_cex(name, cm, row):
+    for v in solver_points(cm):
+        data = dict(name=name, row=row['label'], v=v, tol='1/1000000', conic=True, margin='1/10000')
+        if replay(data):
+            return data
+    return None
+
+
 def numeric_kl_cex(name, cm, row, tries=10):
     """Real solver points of the real compiled program (several objectives) with the numerically worst distribution of
     the TRUE set: a candidate counterexample for replay."""
@@ -232,6 +399,18 @@ def layer_b(ses, name, cm, rows, cache):
         if row['kind'] != 'E':
             continue
         F = row['F']
+        if F is not None and dm.is_conic(cm, F):
+            data = dict(name=name, row=row['label'], v=[float(t) for t in x], tol='1/100000', conic=True)
+            good, info = replay(data, want_info=True, margin=Fraction(1, 10 ** 4) * (1 + abs(Fraction(float(val)))))
+            ses.stats.obligations += 1
+            ses.stats.kinds['solver-point-numeric'] = ses.stats.kinds.get('solver-point-numeric', 0) + 1
+            if good:
+                finding(ses, 'C03:%s:%s' % (name, row['label']),
+                        'dro model %s: the solution returned by solve() is unsafe: %s' % (name, info.get('what')),
+                        data, 'rsv.props.c03:replay')
+            else:
+                ses.stats.discharged += 1
+            continue
         if cm.exp_prob(F):
             # exp is uninterpreted in the encodings: the solver's point is examined numerically (worst distribution of
             # the true set by maximisation); only a reproduced violation is reported
@@ -299,7 +478,13 @@ def replay(data, verbose=False, want_info=False, margin=None):
     o = cm.o
     groups, sense = piece_polys(row['cons'])
     worst, wdesc = None, None
-    if row['kind'] == 'plain':
+    if row['F'] is not None and dm.is_conic(cm, row['F']):
+        best = conic_worst(cm, row, assign)
+        if best is not None:
+            worst = Fraction(best[0])
+            wdesc = 'explicit distribution of the true set (scenario, realisation, mass): %s' % (
+                [(s, {k: round(t, 6) for k, t in z.items()}, round(w_, 6)) for s, z, w_ in best[1]],)
+    elif row['kind'] == 'plain':
         for g in groups:
             for s in range(o.ns):
                 inst = [cm.inst(p, s).subs(assign) for p in g]
@@ -341,6 +526,9 @@ def replay(data, verbose=False, want_info=False, margin=None):
                     wdesc = 'distribution %s on support vertices %s' % (
                         {k: float(t) for k, t in w.items() if t != 0},
                         {s: [{k: float(t) for k, t in vv.items()} for vv in sv[s]] for s in sv})
+    if worst is None:
+        info['what'] = 'no candidate distribution / realisation found'
+        return (False, info) if want_info else False
     info['what'] = 'row value %.6g > 0 at %s' % (float(worst), wdesc)
     if verbose:
         print('dro model %s row %s: compiled program accepts the point; %s' % (name, data['row'], info['what']))
